@@ -42,10 +42,18 @@ POINTS_Q = TA.option_points(strips=[(False, False), (True, True)],
                             patterns=[None, [r'\d+']], mpcs=[0]) + [
     TA.option_point(max_permutation_cases=2),
     TA.option_point(lstrip=True, rstrip=True, max_permutation_cases=2)]
-# thorough: 192 points
+# thorough: 144 points
 POINTS_T = TA.option_points(
     strips=[(False, False), (False, True), (True, True)],
     patterns=[None, [r'\d+'], [r'^a\d+$']], mpcs=[0, 2])
+
+# index-mapping slice: remove_lines always set
+POINTS_SLICE = TA.option_points(
+    strips=[(False, False), (True, True)],
+    substrings=[None, ['X']], patterns=[None, [r'\d+']], removes=[['b']],
+    mpcs=[0])
+SLICE_Q = ['b', 'a', 'X a', 'a1']
+SLICE_T = ['b', 'a', 'X a', 'a1', 'a ']
 
 CMD = re.compile(r'^(?P<head>[^\n]*)\n {4}(?P<cmd>diff|fc|cp|copy) '
                  r'(?P<a>\S+) (?P<b>\S+)[ ]*$', re.M)
@@ -103,9 +111,10 @@ class C15(Check):
                  'observed with an audit-hook file-mutation log, directory '
                  'listings and snapshots, against an artefact model')
     rule = ('text case = one pair of line sequences over the 9-line alphabet '
-            '(both of length <= 2; thorough also length 3 on one side) run '
-            'through both entry points under 34 (quick) / 192 (thorough) '
-            'option points; binary case = one pair of byte strings of length '
+            '(both of length <= 2; thorough also length 3 on one side; plus '
+            'length 3 against 2..3 over a 4/5-line alphabet under the 16 '
+            'points that set remove_lines) run through both entry points '
+            'under 34 (quick) / 144 (thorough) option points; binary case = one pair of byte strings of length '
             '<= 3 over {a, b, 00, ff, 0a}; missing-reference cases per entry '
             'point.  Non-trivial = the case contains a failing assertion '
             '(artefact clauses exercised); for text cases additionally a '
@@ -129,6 +138,9 @@ class C15(Check):
              ('binary', 'all pairs of byte strings of length <= 3'),
              ('missing', 'reference file missing'),
              ('seq2', 'all pairs of sequences of length <= 2')]
+        L.append(('seq3-slice', 'length 3 against length 2..3 over a 4-line '
+                                '(thorough 5-line) alphabet, remove_lines '
+                                'set (index mapping needs >= 3 lines)'))
         if tier == 'thorough':
             L.append(('seq3', 'length 3 on one side, <= 2 on the other'))
         return L
@@ -151,7 +163,14 @@ class C15(Check):
                 for e in TA.sequences(TA.LAMBDA, 2):
                     if a != e:
                         yield {'k': 'text', 'a': a, 'e': e, 'pts': pts}
+        elif layer == 'seq3-slice':
+            alpha = SLICE_T if tier == 'thorough' else SLICE_Q
+            for a in TA.sequences(alpha, 3, 2):
+                for e in TA.sequences(alpha, 3, 2):
+                    if a != e and max(len(a), len(e)) == 3:
+                        yield {'k': 'text', 'a': a, 'e': e, 'pts': 'slice'}
         elif layer == 'seq3':
+            pts = 'q'
             for a in TA.sequences(TA.LAMBDA, 3, 3):
                 for e in TA.sequences(TA.LAMBDA, 2):
                     yield {'k': 'text', 'a': a, 'e': e, 'pts': pts}
@@ -159,9 +178,12 @@ class C15(Check):
 
     # ------------------------------------------------------------- worker
     def setup_worker(self, tier):
+        from tdda.referencetest.checkfiles import FilesComparison
         self.box = TA.TextSandbox('c15_')
+        self.fc = FilesComparison(verbose=False, tmp_dir=self.box.tmp)
+        self.probe_cache = {}
         FSLOG.install()
-        self.sets = {'q': POINTS_Q, 't': POINTS_T}
+        self.sets = {'q': POINTS_Q, 't': POINTS_T, 'slice': POINTS_SLICE}
 
     def teardown_worker(self):
         box = getattr(self, 'box', None)
@@ -316,7 +338,25 @@ class C15(Check):
                     if got != want:
                         self.raw_actual_mismatch(got, want, p, add)
         # ---- the post-processed pair
-        effect = m.exclusion_took_effect()
+        if m.verdict == TS.MUST_PASS:
+            return      # tdda fails what the model passes: C04's business
+        r = m.canonical
+        effect = None
+        optional = set()
+        if r is not None:
+            # a pair the model excuses but tdda's own comparison of just
+            # that pair does not (an under-acceptance, reported by C04) may
+            # legitimately show up as "a difference that was found"
+            for k, c in enumerate(r.classes):
+                if c == TS.EXCUSED and not self.tdda_excuses(
+                        r.actual[k], r.expected[k], p):
+                    optional.add((r.actual[k], r.expected[k]))
+            effect = bool(
+                r.removed_actual or r.removed_expected
+                or r.preprocess_changed
+                or any(c == TS.EXCUSED
+                       and (r.actual[k], r.expected[k]) not in optional
+                       for k, c in enumerate(r.classes)))
         if not post:
             if effect:
                 add('postproc:pair-missing-though-exclusion-took-effect', {})
@@ -326,7 +366,7 @@ class C15(Check):
             add('postproc:pair-not-in-tmp_dir', {'command': c})
         if not (os.path.isfile(c['a']) and os.path.isfile(c['b'])):
             return
-        if m.verdict != TS.MUST_FAIL or m.canonical is None:
+        if m.verdict != TS.MUST_FAIL or r is None:
             return
         try:
             pa = split_lines(box.read(c['a']).decode('utf-8'))
@@ -336,17 +376,27 @@ class C15(Check):
             return
         want = m.unexcused_pairs()
         if want is None:
-            # different numbers of lines: the files must at least differ
+            # different numbers of lines: the files must at least differ -
+            # unless the sides differ only by trailing empty lines, whose
+            # standing as "lines" is a gray zone of the text model
+            ra, re_ = list(r.actual), list(r.expected)
+            while ra and ra[-1] == '':
+                ra.pop()
+            while re_ and re_[-1] == '':
+                re_.pop()
+            if len(ra) == len(re_):
+                return
             if pa == pe:
                 add('postproc:identical-files-for-a-failure',
                     {'post_actual': pa[-6:], 'post_expected': pe[-6:]})
             return
-        got = [(x, y) for x, y in zip(pa, pe) if x != y]
+        shown = [(x, y) for x, y in zip(pa, pe) if x != y]
+        got = [g for g in shown if g not in optional]
         if len(pa) != len(pe):
             add('postproc:files-have-different-line-counts',
                 {'post_actual': pa[-6:], 'post_expected': pe[-6:],
                  'model_unexcused': want})
-        elif got != [tuple(w) for w in want]:
+        elif got != want:
             extra = [g for g in got if g not in want]
             missing = [w for w in want if w not in got]
             if extra and not missing:
@@ -355,8 +405,27 @@ class C15(Check):
                 what = 'postproc:unexcused-difference-hidden'
             else:
                 what = 'postproc:wrong-differences'
-            add(what, {'files_differ_on': got, 'model_unexcused': want,
+            add(what, {'files_differ_on': shown, 'model_unexcused': want,
                        'post_actual': pa[-6:], 'post_expected': pe[-6:]})
+
+    def tdda_excuses(self, a, e, p):
+        """Does tdda's own comparison of just this pair of (already
+        stripped) lines, under the ignore options of p, pass?  Only used to
+        keep C04's under-acceptances out of C15's signatures."""
+        key = (a, e, tuple(p['ignore_substrings'] or ()),
+               tuple(p['ignore_patterns'] or ()))
+        hit = self.probe_cache.get(key)
+        if hit is None:
+            try:
+                r = self.fc.check_strings(
+                    [a], [e], ignore_substrings=p['ignore_substrings'],
+                    ignore_patterns=p['ignore_patterns'],
+                    create_temporaries=False)
+                hit = r.failures == 0
+            except Exception:
+                hit = False
+            self.probe_cache[key] = hit
+        return hit
 
     def raw_actual_mismatch(self, got, want, p, add):
         try:
